@@ -6,6 +6,9 @@ Only two clauses of the statement are structural and are decided; everything els
     with the sortedness axiom that GlobalGrid.set_grid asserts)
  D2 "depends only on the point set": compute_1D_quad_weights forwards only points, interval ends and the construction-time
     flag; compute_weights reads no attribute, global state or level array
+ D3 composite stitching in the high-order rule: whenever two sub-interval rules are concatenated as (A, B[1:]) the weight of
+    the shared point B[0] has been added to A[-1] of the very same arrays (otherwise the shared point loses one contribution and
+    constants are no longer integrated exactly)
 Not decided: exactness of any rule (trapezoidal, high order, Lagrange, B-spline) -- numerical linear algebra."""
 import ast
 import builtins
@@ -103,6 +106,9 @@ def run(prog, ctx):
         if b.kind not in ("assign",):
             ctx.violation("C09.D1", R.key_of(cw, "rebinds-array"), cw.loc(b.stmt), "the weight array is re-bound by `%s`" % src(b.stmt))
 
+    # ------------------------------------------------------------------ D3
+    check_stitching(prog, ctx)
+
     # ------------------------------------------------------------------ D2
     cq = prog.func(GT + ".compute_1D_quad_weights")
     ctx.touch(cq)
@@ -158,3 +164,42 @@ def run(prog, ctx):
             if ch == ["GlobalTrapezoidalGrid"]:
                 n_other += 1
     ctx.floor("C09.D2", 1 + n_other, 1, "callers of GlobalTrapezoidalGrid.compute_weights")
+
+
+def check_stitching(prog, ctx):
+    n = 0
+    for q, fi in sorted(prog.functions.items()):
+        if fi.module.name != "Grid" or fi.cls is None or "HighOrder" not in fi.cls.name:
+            continue
+        tm = Terms(fi.node, max_depth=0)
+        c = cfg_of(fi)
+        for call in R.calls_in(fi.node):
+            t = tm.term(call)
+            if not (t[0] == "call" and t[1] in (("a", ("n", "np"), "append"), ("a", ("n", "np"), "concatenate")) and len(t[2]) >= 1):
+                continue
+            args = t[2] if t[1][2] == "append" else (t[2][0][1:] if t[2][0][0] in ("tuple", "list") else ())
+            if len(args) != 2:
+                continue
+            A, B = args
+            if not (B[0] == "s" and B[2] == ("slice", ("c", "1"), ("c", "None"), ("c", "None")) and A[0] == "n" and B[1][0] == "n"):
+                continue
+            n += 1
+            ctx.touch(fi)
+            cn = R.cfg_node(fi, call)
+            ok = False
+            for m in c.nodes:
+                if m.kind == "stmt" and isinstance(m.ast, ast.AugAssign) and isinstance(m.ast.op, ast.Add) and c.dominates(m, cn):
+                    tg, v = tm.term(m.ast.target), tm.term(m.ast.value)
+                    if tg == ("s", A, ("c", "-1")) and v == ("s", B[1], ("c", "0")):
+                        # not undone / re-bound in between
+                        rebinds = [x for x in tm.env.bindings.get(A[1], []) + tm.env.bindings.get(B[1][1], []) if x.kind in ("assign", "unpack")
+                                   and c.node_of(x.stmt) is not None and c.node_of(x.stmt).idx in c.reachable_after(m) and cn.idx in c.reachable_after(c.node_of(x.stmt))
+                                   and c.node_of(x.stmt) is not cn]
+                        loops_ok = m.loops == cn.loops
+                        if not rebinds and loops_ok:
+                            ok = True
+            ctx.check(ok, "C09.D3", R.key_of(fi, "stitch#%d" % n), fi.loc(call),
+                      "before `%s` the shared point's weight %s[0] is added to %s[-1]" % (src(call), show(B[1]), show(A)),
+                      "`%s` drops the first weight of %s but that weight was not added to %s[-1] of the same array: the point shared by the two "
+                      "sub-intervals loses one contribution" % (src(call), show(B[1]), show(A)))
+    ctx.floor("C09.D3", n, 4, "overlap-add concatenations in the high-order rule")
